@@ -46,8 +46,9 @@ type LObj struct {
 }
 type LInner struct{}
 
-func (o *LObj) Boom() int64   { panic("method boom") }
-func (i *LInner) Boom() int64 { panic("three level boom") }
+func (o *LObj) Boom() int64     { panic("method boom") }
+func (o *LObj) BoomLine() int64 { panic(fmt.Errorf("line 1 of the feed is malformed")) }
+func (i *LInner) Boom() int64   { panic("three level boom") }
 
 var citeRe = regexp.MustCompile(`line (\d+), column`)
 
@@ -59,7 +60,7 @@ func runLines(s *Session) []N {
 	text := strings.Repeat(nl, s.Pad) + strings.Join(s.Lines, nl) + nl
 	apis := map[string]interface{}{
 		"obj": &LObj{In: &LInner{}}, "arr": []int64{1, 2, 3}, "m": map[string]int64{"k": 1}, "ev": func(v interface{}) {},
-		"boom": func() int64 { panic("boom") }, "uz": uint64(0), "iz": int64(0), "fz": float64(0),
+		"boom": func() int64 { panic("boom") }, "boomline": func() int64 { panic("line 1 of the feed is malformed") }, "uz": uint64(0), "iz": int64(0), "fz": float64(0),
 	}
 	dc := context.NewDataContext()
 	for k, v := range apis {
